@@ -53,6 +53,7 @@ def strat_key(cfg):
     return '%s/%s/%s/J%d/%s/%s/%s' % (cfg['dir'], cfg['biort'], cfg['qshift'], cfg['J'], cfg['layout'], cfg.get('skip'), cfg.get('subset'))
 
 
+_JINV = {}
 def oracle_run(cfg):
     from pytorch_wavelets import DTCWTForward, DTCWTInverse
     r = np.random.default_rng(cfg['seed'])
@@ -85,13 +86,16 @@ def oracle_run(cfg):
         with torch.no_grad():
             yl0, yh0 = fwd(torch.zeros(shp, dtype=torch.float64))
         ins0 = [yl0] + list(yh0); sizes = [int(t.numel()) for t in ins0]
-        cols = []
-        with torch.no_grad():
-            for a, t in enumerate(ins0):
-                for k in range(sizes[a]):
-                    args = [torch.zeros_like(u) for u in ins0]; args[a].view(-1)[k] = 1
-                    cols.append(inv((args[0], args[1:])).reshape(-1))
-        Jm = torch.stack(cols, 1)
+        key = (cfg['biort'], cfg['qshift'], J, cfg['H'], cfg['W'], o, ri)
+        if key not in _JINV:            # the Jacobian of the inverse does not depend on the grad subset: assemble it once per configuration
+            cols = []
+            with torch.no_grad():
+                for a, t in enumerate(ins0):
+                    for k in range(sizes[a]):
+                        args = [torch.zeros_like(u) for u in ins0]; args[a].view(-1)[k] = 1
+                        cols.append(inv((args[0], args[1:])).reshape(-1))
+            _JINV.clear(); _JINV[key] = torch.stack(cols, 1)
+        Jm = _JINV[key]
         args = [torch.tensor(r.standard_normal(tuple(t.shape)), requires_grad=bool(s)) for t, s in zip(ins0, cfg['subset'])]
         y = inv((args[0], args[1:]))
         g = torch.tensor(r.standard_normal(tuple(y.shape)))
